@@ -714,6 +714,7 @@ func c11Proposals(c *core.Ctx) {
 			}
 			k.Count("ike_proposals_ok", 1)
 			k.Distinct(fmt.Sprintf("ikeprop|%d%d%d%d", e, i, p, d))
+			rpObs := bridge.ObserveProposal(rp) // what was received, observed BEFORE the objects are recycled below
 			// the caller edits the proposal it was handed, then asks again (same SA object and a fresh one)
 			scribbleProposal(prop)
 			scribbleProposal(rp)
@@ -732,12 +733,14 @@ func c11Proposals(c *core.Ctx) {
 			// now break one transform at a time: SA construction must fail with an error and nil result
 			for slot := 0; slot < 4; slot++ {
 				for _, how := range []string{"id+1000", "id=0xffff", "keylen-attr"} {
-					bp := bridge.ObserveProposal(rp)
+					bp := abs.Proposal{Num: rpObs.Num, Proto: rpObs.Proto, SPI: rpObs.SPI, Transforms: append([]abs.Transform{}, rpObs.Transforms...)}
+					hit := false
 					for ti := range bp.Transforms {
 						t := &bp.Transforms[ti]
 						if int(t.Type) != []int{1, 3, 2, 4}[slot] {
 							continue
 						}
+						hit = true
 						switch how {
 						case "id+1000":
 							t.ID += 1000
@@ -755,6 +758,10 @@ func c11Proposals(c *core.Ctx) {
 					}
 					if how == "keylen-attr" && slot != 0 {
 						continue
+					}
+					if !hit {
+						k.Violate("harness", "c11-breakage-loop-found-no-transform-to-break", "self-check of the workload", nil)
+						return
 					}
 					k.Eval(1)
 					bk, bpub, berr := security.NewIKESAKey(bridge.BuildProposal(bp), peerPub, []byte("nonces"), 1, 2)
